@@ -54,10 +54,76 @@ def plan(tier, seed):
               via=pick(rng, ["func", "func", "linop"]), cseed=int(rng.integers(1 << 30)),
               layout=pick(rng, ["C", "C", "C", "F", "strided"]),
               arrparams=bool(rng.random() < 0.3))
+        if i % 12 == 9 and nd >= 2:
+            # a very wide kernel along the last axis (65 - 80 samples: a long 1-D filter applied
+            # through the 2-D / 3-D kernels)
+            c_ = P.cases[-1]
+            c_["grid"] = [int(rng.integers(2, 5)) for _ in range(nd - 1)] + [
+                int(rng.integers(70, 100))]
+            c_["width"] = [float(pick(rng, [1, 1.5, 2])) for _ in range(nd - 1)] + [
+                float(rng.integers(65, 81))]
+            c_["param"] = ([1] * nd if c_["kernel"] == "spline" else
+                           [float(np.round(rng.uniform(1, 6), 2)) for _ in range(nd)])
+            c_["pts"] = [4]
+            c_["batch"] = []
+    # more than 2**20 coordinates in one call (a long non-Cartesian readout train), decided at
+    # sampled points and through sums computed with numpy.bincount
+    for i in range(2 if quick else 8):
+        P.add("many-points", npts=int(pick(rng, [(1 << 20) + 5, (1 << 21) + 3, 1200007])),
+              n=int(pick(rng, [48, 64, 90])), cplx=bool(rng.random() < 0.5),
+              cseed=int(rng.integers(1 << 30)), timeout=900)
     return P.cases
 
 
+def run_many(case):
+    """Linear interpolation (spline order 1, width 2) of a 1-D grid at more than 2**20
+    coordinates and its transpose: y_j = (1-f) x[i] + f x[i+1] with i = floor(c_j), wrapped."""
+    import sigpy as sp
+    rng = np.random.default_rng(case["cseed"])
+    n, M = case["n"], case["npts"]
+    dt = np.complex128 if case["cplx"] else np.float64
+    x = crandn(rng, [n], dt)
+    c = rng.uniform(-1.5 * n, 1.5 * n, M)
+    c = np.where(np.abs(c - np.round(c)) < 1e-9, c + 0.25, c)        # no exact ties
+    coord = c.reshape(-1, 1)
+    sig = "many-points|%d|%s" % (M, "c" if case["cplx"] else "r")
+    wit = dict(case)
+    i0 = np.floor(c).astype(np.int64)
+    f = c - i0
+    ref_i = (1 - f) * x[i0 % n] + f * x[(i0 + 1) % n]
+    got_i = sp.interpolate(x, coord, kernel="spline", width=2, param=1)
+    if got_i.shape != (M,):
+        return violated(sig, "interpolate output shape %s for %d points" % (got_i.shape, M), wit,
+                        mech="shape")
+    err = np.abs(got_i - ref_i)
+    k = int(np.argmax(err))
+    if not err[k] <= 1e-12 * (1 + np.max(np.abs(x))):
+        return violated(sig, "interpolate differs from the documented kernel sum at point %d of "
+                        "%d: |err| = %.3g (%d points differ)" % (
+                            k, M, float(err[k]), int(np.sum(err > 1e-12 * (1 + np.max(np.abs(x)))))),
+                        wit, mech="value:interpolate")
+    y = crandn(rng, [M], dt)
+    got_g = sp.gridding(y, coord, [n], kernel="spline", width=2, param=1)
+    w0, w1 = (1 - f) * y, f * y
+    if case["cplx"]:
+        ref_g = (np.bincount(i0 % n, w0.real, n) + np.bincount((i0 + 1) % n, w1.real, n)) + 1j * (
+            np.bincount(i0 % n, w0.imag, n) + np.bincount((i0 + 1) % n, w1.imag, n))
+    else:
+        ref_g = np.bincount(i0 % n, w0, n) + np.bincount((i0 + 1) % n, w1, n)
+    ab = np.bincount(i0 % n, np.abs(w0), n) + np.bincount((i0 + 1) % n, np.abs(w1), n)
+    eg = np.abs(got_g - ref_g)
+    kk = int(np.argmax(eg / (ab + 1e-300)))
+    if not np.all(eg <= 1e-9 * ab + 1e-300):
+        return violated(sig, "gridding differs from the transposed kernel sum at grid point %d: "
+                        "|err| = %.3g where sum|w||y| = %.3g" % (kk, float(eg[kk]), float(ab[kk])),
+                        wit, mech="value:gridding")
+    return held(sig, {"points": M, "interp_err": float(err[k]),
+                      "grid_err": float(np.max(eg / (ab + 1e-300)))}, 2, True)
+
+
 def run_case(case):
+    if case["gen"] == "many-points":
+        return run_many(case)
     import sigpy as sp
     rng = rng_for(case)
     grid, batch, pts, nd = case["grid"], case["batch"], case["pts"], case["nd"]
